@@ -12,6 +12,7 @@ import Driver.Cache
 import Driver.Comp
 import Driver.Lex
 import Driver.Macro
+import Driver.Decomp
 open Lean Drv
 
 /-- dispatch on the prefix of "op" -/
@@ -32,6 +33,7 @@ def dispatch (j : Json) : R Json := do
   | "comp" => CompD.handle op j
   | "lex" => LexD.handle op j
   | "macro" => MacroD.handle op j
+  | "decomp" => DecompD.handle op j
   | _ => throw s!"unknown op {op}"
 
 partial def loop (h : IO.FS.Stream) (out : IO.FS.Stream) : IO Unit := do
